@@ -408,6 +408,12 @@ fn block_j<'tcx>(
                 if let ty::FnDef(callee, gargs) = c.const_.ty().kind() {
                     t.push(("callee", J::s(dp(tcx, *callee))));
                     t.push(("callee_local", J::b(callee.is_local())));
+                    if matches!(tcx.def_kind(*callee), DefKind::Fn | DefKind::AssocFn) {
+                        let csig = tcx.fn_sig(*callee).instantiate_identity().skip_binder();
+                        if csig.safety().is_unsafe() {
+                            t.push(("callee_unsafe", J::b(true)));
+                        }
+                    }
                     if let Some(tr) = tcx.trait_of_assoc(*callee) {
                         t.push(("callee_trait", J::s(dp(tcx, tr))));
                     }
